@@ -75,6 +75,25 @@ def check_windows(ctx, r, F, what, writes, unknown, gate_k, envs, b):
     ctx.ob(r, (what, "windows-tile-[0,N)"), not bad, "; ".join(bad[:3]), cfg=F.key, where=b.where(), detail={"writes": len(writes), "variants": len(envs)})
 
 
+def _same_value(e, K, envs):
+    """expression e evaluates to the same number as constant K for every hash variant"""
+    if e == K:
+        return True
+    for _, env in envs:
+        a, b2 = layout.ceval(e, env), layout.ceval(K, env)
+        if a is None or b2 is None or a != b2:
+            return False
+    return bool(envs)
+
+
+def _gate_ok(gate, K, truth, envs):
+    return gate is not None and gate[1] == truth and _same_value(gate[0], K, envs)
+
+
+def _ok_value(ret, K, envs):
+    return ret[0] == "agg" and ret[1] == "adt:core::result::Result::Ok" and len(ret[2]) == 1 and _same_value(ret[2][0], K, envs)
+
+
 def binary(ctx, F, envs, r1, r2):
     W, err = layout.binary_writer(F)
     ctx.instance(r1)
@@ -84,9 +103,9 @@ def binary(ctx, F, envs, r1, r2):
     b = W["body"]
     K = ("cpath", "hash::public::FuzzyHashType::SIZE_IN_BYTES")
     ok, er = W["ok"], W["err"]
-    g = ok["gate"] == (K, False) and er["gate"] == (K, True)
+    g = _gate_ok(ok["gate"], K, False, envs) and _gate_ok(er["gate"], K, True, envs)
     ctx.ob(r1, ("store_into_bytes", "gate"), g, "gate is %s / %s; reference out.len() < SIZE_IN_BYTES" % (ok["gate"], er["gate"]), cfg=F.key, where=b.where())
-    ctx.ob(r1, ("store_into_bytes", "ok-value"), ok["ret"] == ("agg", "adt:core::result::Result::Ok", (K,)), "returns %s" % sym.fmt(ok["ret"]), cfg=F.key, where=b.where())
+    ctx.ob(r1, ("store_into_bytes", "ok-value"), _ok_value(ok["ret"], K, envs), "returns %s" % sym.fmt(ok["ret"]), cfg=F.key, where=b.where())
     ctx.ob(r1, ("store_into_bytes", "err-value"), er["ret"] == ("agg", "adt:core::result::Result::Err", (("agg", "adt:errors::OperationError::BufferIsTooSmall", ()),)) and not er["writes"] and not er["unknown"],
            "error path returns %s with %d writes" % (sym.fmt(er["ret"]), len(er["writes"])), cfg=F.key, where=b.where())
     vals = {nm: (env["assoc:SIZE_IN_BYTES"], env["SIZE_IN_BYTES"]) for nm, env in envs}
@@ -107,9 +126,9 @@ def text(ctx, F, envs, r1, r2):
         return
     for mode, K in want.items():
         ok, er = W["modes"][mode], W["errs"][mode]
-        ctx.ob(r1, ("store_into_str_bytes/" + mode, "gate"), ok["gate"] == (K, False) and er["gate"] == (K, True),
+        ctx.ob(r1, ("store_into_str_bytes/" + mode, "gate"), _gate_ok(ok["gate"], K, False, envs) and _gate_ok(er["gate"], K, True, envs),
                "gate for %s is %s / %s; reference out.len() < %s" % (mode, ok["gate"], er["gate"], K[1].rsplit("::", 1)[-1]), cfg=F.key, where=b.where())
-        ctx.ob(r1, ("store_into_str_bytes/" + mode, "ok-value"), ok["ret"] == ("agg", "adt:core::result::Result::Ok", (K,)), "returns %s" % sym.fmt(ok["ret"]), cfg=F.key, where=b.where())
+        ctx.ob(r1, ("store_into_str_bytes/" + mode, "ok-value"), _ok_value(ok["ret"], K, envs), "returns %s" % sym.fmt(ok["ret"]), cfg=F.key, where=b.where())
         ctx.ob(r1, ("store_into_str_bytes/" + mode, "err-value"), er["ret"] == ("agg", "adt:core::result::Result::Err", (("agg", "adt:errors::OperationError::BufferIsTooSmall", ()),)) and er["writes"] == 0,
                "error path returns %s with %d writes" % (sym.fmt(er["ret"]), er["writes"]), cfg=F.key, where=b.where())
         check_windows(ctx, r2, F, "store_into_str_bytes/" + mode, ok["writes"], ok["unknown"], K, envs, b)
